@@ -42,6 +42,11 @@ inductive V where
   /-- a native Python `bool` (what the transpiled `has(…)` template returns: `not isinstance(…)`);
   not a `BoolType` for `logical_*`, but an `int` for comparisons -/
   | pybool (b : Bool)
+  /-- CEL `null` (Python `None`): an ordinary value — bound to a present key, held by a list -/
+  | null
+  /-- a `DoubleType` (IEEE-754 binary64; `Float` is the same native type): equality is IEEE equality,
+  so a NaN is equal to nothing, itself included -/
+  | dbl (f : Float)
   deriving Repr, Inhabited
 
 inductive Runner | I | C
@@ -58,6 +63,8 @@ def V.show : V → String
   | .map kvs => "M{" ++ V.showPairs kvs ++ "}"
   | .err => "E"
   | .pybool b => if b then "bT" else "bF"
+  | .null => "n"
+  | .dbl f => if f.isNaN then "dnan" else "d" ++ toString f.toBits.toNat
 def V.showList : List V → String
   | [] => ""
   | [x] => V.show x
@@ -78,6 +85,8 @@ def truthy : V → Bool
   | .map kvs => !kvs.isEmpty
   | .err => true
   | .pybool b => b
+  | .null => false
+  | .dbl f => f != 0
 
 def V.isErr : V → Bool
   | .err => true | _ => false
@@ -177,6 +186,21 @@ def veq : V → V → PyM Bool
   | .str _, .pybool _ => .ok false
   | .list a, .list b => if a.length != b.length then .ok false else veqZip a b
   | .map a, .map b => if a.length != b.length then .ok false else veqEntries a b
+  -- `None == None`; `None` against a bool / string / list / map: Python's default `False`
+  -- (the numeric kinds insist on their own type: `type_matched` raises)
+  | .null, .null => .ok true
+  | .null, .bool _ => .ok false
+  | .bool _, .null => .ok false
+  | .null, .pybool _ => .ok false
+  | .pybool _, .null => .ok false
+  | .null, .str _ => .ok false
+  | .str _, .null => .ok false
+  | .null, .list _ => .ok false
+  | .list _, .null => .ok false
+  | .null, .map _ => .ok false
+  | .map _, .null => .ok false
+  -- `float.__eq__`: IEEE-754 (`Float`'s `==`), never object identity
+  | .dbl a, .dbl b => .ok (a == b)
   | _, _ => .error .typeError
 /-- `reduce(logical_and, (equal(s, o) for s, o in zip(self, other)), True)` -/
 def veqZip : List V → List V → PyM Bool
@@ -272,6 +296,7 @@ def sizeFn : V → PyM V
   | .str cs => .ok (.int cs.length)
   | .list xs => .ok (.int xs.length)
   | .map kvs => .ok (.int kvs.length)
+  | .null => .ok (.int 0)                     -- `if container is None: return IntType(0)`
   | _ => .error .typeError
 
 /-- a function/method call through `function_eval` / `method_eval` (interpreter: an error argument
@@ -419,6 +444,7 @@ def vlt (a b : V) : PyM Bool :=
   | .bool a, .pybool b => .ok (!a && b)
   | .pybool a, .pybool b => .ok (!a && b)
   | .str a, .str b => .ok (lexLt a b)
+  | .dbl a, .dbl b => .ok (a < b)
   | _, _ => .error .typeError
 
 def arith (op : BOp) (a b : V) : PyM V :=
@@ -435,6 +461,11 @@ def arith (op : BOp) (a b : V) : PyM V :=
   | .mod, .uint a, .uint b => .uint <$> UintOps.mod a b
   | .add, .str a, .str b => .ok (.str (a ++ b))
   | .add, .list a, .list b => .ok (.list (a ++ b))
+  -- `DoubleType` arithmetic is `float`'s (IEEE-754; `__truediv__` spells out x/0 = ±inf or NaN)
+  | .add, .dbl a, .dbl b => .ok (.dbl (a + b))
+  | .sub, .dbl a, .dbl b => .ok (.dbl (a - b))
+  | .mul, .dbl a, .dbl b => .ok (.dbl (a * b))
+  | .div, .dbl a, .dbl b => .ok (.dbl (a / b))
   | _, _, _ => .error .typeError
 
 /-- `operator.<op>(a, err)` with a `CELEvalError` object on the right (measured): `IntType`/`UintType`
@@ -447,6 +478,8 @@ def arithErrRight (op : BOp) (a : V) : PyM V :=
   | .str _, .add => .error .typeError
   | .str _, .mod => .error .typeError
   | .list _, .add => .error .typeError
+  | .dbl _, .div => .error .typeError
+  | .dbl _, .mod => .error .typeError
   | _, _ => .ok .err
 
 /-- a binary operator applied to evaluated operands (`operator.*`, `boolean(operator.*)`,
@@ -517,6 +550,8 @@ def boolTypeOf : V → PyM V
   | .int i => .ok (.bool (i != 0))
   | .uint i => .ok (.bool (i != 0))
   | .pybool b => .ok (.bool b)
+  | .null => .ok (.bool false)
+  | .dbl f => if f.isNaN then .error .valueError else .ok (.bool (f != 0))
   | _ => .error .typeError
 
 /-- one macro applied to the evaluated collection `c`; `body v` evaluates the macro's expression
@@ -587,6 +622,7 @@ def vneg (r : Runner) (a : V) : PyM V :=
   match a with
   | .err => .ok .err
   | .int i => handled r [.typeError, .valueError] (.int <$> IntOps.neg i)
+  | .dbl f => .ok (.dbl (-f))
   | _ => handled r [.typeError, .valueError] (.error .typeError)
 
 mutual
@@ -685,5 +721,12 @@ def obs (m : PyM V) : String :=
   | .ok v => v.show
 
 def run (r : Runner) (e : E) : String := obs (ev r [] e)
+
+/-- evaluation with variables supplied by the evaluation context (`Runner.evaluate(activation)`): the
+context is the outermost scope; each binding is given as a literal expression -/
+def runWith (r : Runner) (binds : List (Nat × E)) (e : E) : String :=
+  match binds.mapM (fun (x, b) => (fun v => (x, v)) <$> ev r [] b) with
+  | .ok env => obs (ev r env e)
+  | .error _ => "bad-binding"
 
 end Cel.Coll
